@@ -576,7 +576,9 @@ class Client(base_client.BaseClient):
                 self.queue.task_done()
                 packets = []
             else:
-                while True:
+                # a payload with more packets than the server accepts would
+                # be discarded as a whole, the rest goes in the next one
+                while len(packets) < payload.Payload.max_decode_packets:
                     try:
                         packets.append(self.queue.get(block=False))
                     except self.queue.Empty:
